@@ -1192,6 +1192,10 @@ func (g *Gen) OLVM() txgen.Tx {
 		if len(to) != 20 {
 			to = w.G.U.Users[0].Addr
 		}
+		// half of the transfers stay among the accounts that also send EVM transactions
+		if len(w.G.U.Eth) > 1 && g.Uniform(2, "to-eth") == 0 {
+			to = w.G.U.Eth[g.Uniform(len(w.G.U.Eth), "to-eth-which")].OLAddr()
+		}
 		t := ethcmn.BytesToAddress(to)
 		a.To = &t
 		a.Value = big.NewInt(int64(rapid.IntRange(0, 1000000).Draw(g.T, "value")))
